@@ -52,6 +52,9 @@ type Violation struct {
 	Shrunk   bool              `json:"shrunk"`
 	Calls    int               `json:"shrink_calls,omitempty"`
 	Fp       uint64            `json:"fingerprint"`
+	// Prelude: run indices (of the same seed) executed in the same process before the replayed run. Set
+	// when the violation depends on what earlier runs left behind in package-level variables of the library.
+	Prelude []int64 `json:"prelude,omitempty"`
 }
 
 type KnownFinding struct {
@@ -304,12 +307,23 @@ func TestWorker(t *testing.T) {
 				}
 			}
 			ch.Keep = true
+			// the earlier runs of the process the violation was found in (results ignored)
+			for _, idx := range v.Prelude {
+				beat.Add(1)
+				if e.GCPerRun {
+					runtime.GC()
+				}
+				runOnce(t, e, NewChoices(v.Seed, idx), &RunCfg{Prop: a.Prop, Tier: v.Tier})
+			}
+			if e.GCPerRun && len(v.Prelude) > 0 {
+				runtime.GC()
+			}
 			o := runOnce(t, e, ch, cfg)
 			res.Outcome = o
 			res.Runs = 1
 			if o.Class != "" {
 				res.Violation = &Violation{Property: a.Prop, Class: o.Class, Key: o.Key, Detail: o.Detail, Seed: v.Seed, Run: v.Run, Tier: v.Tier,
-					Pin: v.Pin, Extra: o.Extra, Trace: ch.Trace, Labels: ch.Labels, Fp: o.Fingerprint}
+					Pin: v.Pin, Extra: o.Extra, Trace: ch.Trace, Labels: ch.Labels, Fp: o.Fingerprint, Prelude: v.Prelude}
 				finish(3)
 			}
 			finish(0)
